@@ -92,6 +92,11 @@ FILTERS = [
     ('Sensitive', True), ('Sensitive', False),
     ('Initial Date', T0), ('Initial Date', T0 + 5), ('Initial Date', T0 + 7),
     ('Initial Date', T0 + 12),
+    # boundary values of the date type: the epoch itself and the far future (ranges like [0, T])
+    ('Initial Date', 0), ('Initial Date', 2 ** 32 + 5),
+    # falsy values of the other types: a filter is a filter even when its value is 0 / empty
+    ('Cryptographic Length', 0), ('Cryptographic Usage Mask', 0), ('Object Group', ''),
+    ('Operation Policy Name', ''), ('Unique Identifier', ''), ('Unique Identifier', '0'),
 ]
 ENUMS = {'State': ST, 'Object Type': OT, 'Cryptographic Algorithm': ALG,
          'Certificate Type': E.CertificateType}
